@@ -72,6 +72,9 @@ type c17rPeer struct {
 	nextID  uint64
 	sent    uint32
 	done    bool // the migration answer has been given
+	// migrateAll: EVERY ping is answered with PHONE_MIGRATE_n, not only the first (c17.inflight: a data centre that
+	// sends all the requests it has in hand elsewhere)
+	migrateAll bool
 }
 
 func newC17rPeer(key []byte, migrate int, closeHow string, delay time.Duration) *c17rPeer {
@@ -136,7 +139,7 @@ func (p *c17rPeer) serve(rc *c17rConn) {
 		mid := p.nextID
 		seq := p.sent*2 + 1
 		p.sent++
-		migrateNow := p.migrate != 0 && !p.done
+		migrateNow := p.migrate != 0 && (!p.done || p.migrateAll)
 		p.done = true
 		p.mu.Unlock()
 		var payload []byte
